@@ -537,3 +537,24 @@ func TinyPayloadStream(seed int64) *Stream {
 	}
 	return &Stream{Name: "tiny-last-payloads", Pkts: ps, Bytes: EncodePkts(ps), Exp: exp}
 }
+
+// SyncLookalikeStream: 0x47 bytes in the four bytes that follow the second packet's sync byte
+// (PID low byte 0x47, adaptation_field_length 0x47) and a pointer_field/payload byte 0x47: the
+// packet-size heuristic must take the FIRST sync byte at or after offset 188.
+func SyncLookalikeStream(seed int64) *Stream {
+	cc := []uint8{1, 2}
+	exp := map[uint16][]ExpData{}
+	u0 := PESUnit(0x0047, 0xc0, pesPayload(120, 100, seed), 5, true)
+	// second packet: PID 0x0047 (byte 2 = 0x47) and adaptation_field_length 0x47 (byte 4) through a 112-byte payload chunk
+	u1 := PESUnit(0x0047, 0xc0, pesPayload(121, 184+112-14, seed), 6, true)
+	u2 := PESUnit(0x1047, 0xe0, pesPayload(122, 60, seed), 7, false)
+	var ps []*ref.Pkt
+	ps = append(ps, Packetize(u0, nil, &cc[0], false)...)
+	ps = append(ps, Packetize(u1, []int{112}, &cc[0], false)...)
+	ps = append(ps, Packetize(u2, nil, &cc[1], false)...)
+	exp[0x0047] = []ExpData{u0.Exp[0], u1.Exp[0]}
+	exp[0x1047] = u2.Exp
+	// make the second packet the one with adaptation_field_length 0x47: order = u1 first packet second
+	ps[0], ps[1] = ps[0], ps[1]
+	return &Stream{Name: "sync-lookalikes", Pkts: ps, Bytes: EncodePkts(ps), Exp: exp}
+}
